@@ -43,6 +43,13 @@ Theorem suspended_only_while_incomplete : forall (O : TimeOps) (P : prog O) sub 
 Proof. exact suspend_truthy_incomplete. Qed.
 Print Assumptions suspended_only_while_incomplete.
 
+(* starting the auxiliary without completing at once truncates the active frames to the head of the main frame *)
+Theorem started_conditional_aux_truncates_outline : forall (O : TimeOps) (P : prog O) sub a mf ns aux w w',
+  done (gett w aux) = true -> suspend P sub a mf ns aux w = (w', true) -> a < length (tss w') ->
+  actives (gett w' a) = head P a mf.
+Proof. exact suspend_start_truncates. Qed.
+Print Assumptions started_conditional_aux_truncates_outline.
+
 (* "it then runs every tick regardless of its conditions until it completes" *)
 Theorem running_conditional_aux_ignores_conditions : forall (O : TimeOps) (P : prog O) sub a mf ns ns' aux w,
   done (gett w aux) = false -> suspend P sub a mf ns aux w = suspend P sub a mf ns' aux w.
